@@ -73,11 +73,18 @@ class Chain(object):
       self.net.fire(evs[0], 'ok')
     vloop.run_ready()
 
-  def put(self, name, topic, partition, payloads, acks):
+  def put(self, name, topic, partition, payloads, acks, form=0):
     from scales.constants import MessageProperties
     from scales.message import MethodCallMessage
     from scales.sink import ClientMessageSinkStack
-    msg = MethodCallMessage(None, 'Put', (topic, payloads, acks), {})
+    if form == 0:
+      msg = MethodCallMessage(None, 'Put', (topic, payloads, acks), {})
+    elif form == 1:
+      msg = MethodCallMessage(None, 'Put', (topic,), {'payloads': payloads, 'acks': acks})
+    elif form == 2:
+      msg = MethodCallMessage(None, 'Put', (), {'acks': acks, 'topic': topic, 'payloads': payloads})
+    else:
+      msg = MethodCallMessage(None, 'Put', (topic, payloads), {'acks': acks})
     msg.properties[MessageProperties.Endpoint] = self.KafkaEndpoint('h0', 9092, partition)
     st = ClientMessageSinkStack()
     st.Push(self.term, name)
@@ -351,6 +358,38 @@ def check_client_errors(codes):
   return {'n': n, 'keys': n, 'viol': viol, 'sample': {'client_error_codes': [codes[0], codes[-1]]}}
 
 
+def check_call_forms():
+  """Put(topic, payloads, acks) called positionally, by keyword and mixed: the request carries what was passed (acks 0, empty payload lists)."""
+  viol = []
+  n = 0
+  world.reset()
+  ch = Chain()
+  for form in (0, 1, 2, 3):
+    for acks in ACKS:
+      for pl in PAYLOADS[:4]:
+        n += 1
+        if ch.transport.state != 2:
+          world.reset()
+          ch = Chain()
+        written = ch.put('f%d' % n, b't', 0, list(pl), acks, form)
+        bad = None
+        try:
+          p = K.parse_produce(K.parse_request(written)['body'])
+          t = p['topics'][0]
+          got = (p['acks'], t['topic'], [m['value'] for m in t['partitions'][0]['messages']])
+          if got != (acks, b't', list(pl)):
+            bad = 'request carries acks=%r topic=%r payloads=%r' % got
+        except Exception as e:  # noqa
+          bad = 'request does not parse: %r (%d bytes written)' % (e, len(written))
+        if bad:
+          viol.append({'clause': 'C15.fields', 'message': 'Put called %s with acks=%r payloads=%r: %s'
+                       % (['positionally', 'with payloads and acks by keyword', 'all by keyword', 'with acks by keyword'][form], acks, pl, bad),
+                       'sig': {'form': form}})
+          if len(viol) >= 3:
+            return {'n': n, 'keys': n, 'viol': viol, 'sample': None}
+  return {'n': n, 'keys': n, 'viol': viol, 'sample': {'call_forms': 4}}
+
+
 def check_while_opening():
   """2-3 produce requests handed to the serializer while the transport is still connecting; once it is open, what is written
   must be one well-formed request per call, each with its own topic, partition and payloads."""
@@ -454,6 +493,7 @@ def main(tier, seed):
     out += explore.pmap('vt.checks.c15', 'check_responses', [(tier,)], pool, seed)
     out += explore.pmap('vt.checks.c15', 'check_correlation', [()], pool, seed)
     out += explore.pmap('vt.checks.c15', 'check_while_opening', [()], pool, seed)
+    out += explore.pmap('vt.checks.c15', 'check_call_forms', [()], pool, seed)
     out += explore.pmap('vt.checks.c15', 'check_client_ids', [()], pool, seed)
     if tier == 'quick':
       codes = list(range(-40, 140)) + [-32768, -32767, -129, 255, 256, 32766, 32767]
